@@ -92,7 +92,17 @@ def run_case(a):
                     pass
         st["foreign_planted"] = len(planted)
         preexisting = {p for p in planted}
-        path = rnd.choice(["cli", "cli-rel", "cli-rel-deep", "build", "init", "cli-config", "init-custom", "init-dotslash", "cli-flags-over-config", "cli-flags-over-config"])
+        path = rnd.choice(["cli", "cli-rel", "cli-rel-deep", "build", "build-member", "init", "cli-config", "init-custom", "init-dotslash", "cli-flags-over-config", "cli-flags-over-config"])
+        if path == "build-member":
+            # the build script of a workspace member: its working directory has no tauri.conf.json of its own, the one that is found
+            # belongs to an ancestor; the settings' relative paths are relative to the working directory. The directory that the same
+            # relative output path names from the ANCESTOR holds look-alike files that are nobody's business
+            member = os.path.join(root, "app", "member")
+            os.makedirs(member, exist_ok=True)
+            shadow = os.path.normpath(os.path.join(root, "app", os.path.relpath(os.path.join(root, outrel), member)))
+            if shadow.startswith(root + os.sep) and os.path.normpath(os.path.join(root, outrel)) != shadow:
+                common.write_tree(shadow, [("models.ts", "// foreign"), ("bindings.d.ts", "// foreign"), ("generated_notes.ts", "// foreign"), ("types.ts", "// foreign types"),
+                                           ("commands.ts", "// foreign"), ("index.ts", "// foreign")])
         if path == "cli-flags-over-config":
             # the configuration file names ANOTHER output directory (with foreign files in it); the flags name the real one, so
             # the configured output directory is the flags' (flag > file) and the file's directory must stay untouched
@@ -150,6 +160,11 @@ def run_case(a):
                 os.makedirs(os.path.join(root, "app/config"), exist_ok=True)
                 argv = [cli, "tauri-typegen", "init", "-p", os.path.relpath(src, cwd), "-g", os.path.relpath(os.path.join(root, outrel), cwd), "-v", mode,
                         "-o", "config/typegen.custom.json", "--force"]
+            elif path == "build-member":
+                cfgrel = None
+                cwd = os.path.join(root, "app", "member")
+                proj.write_tauri_conf(os.path.join(root, "app"), os.path.relpath(src, cwd), os.path.relpath(os.path.join(root, outrel), cwd), mode, {"visualizeDeps": step == 1 and vary_cfg})
+                argv = [drv, "build"]
             else:
                 cfgrel = None
                 proj.write_tauri_conf(cwd, os.path.relpath(src, cwd), os.path.relpath(os.path.join(root, outrel), cwd), mode, {"visualizeDeps": step == 1 and vary_cfg})
@@ -165,7 +180,7 @@ def run_case(a):
             label = "%s step %d (rc=%s)" % (path, step, r.rc)
             for kind in ("created", "deleted", "modified", "touched"):
                 for rel in d[kind]:
-                    if path == "build" and rel == "app/tauri.conf.json":
+                    if path in ("build", "build-member") and rel == "app/tauri.conf.json":
                         continue   # written by the harness itself before the run (outside the snapshot window) — never by the tool
                     if allowed(rel, outrel, cfgrel if path in ("init", "init-custom", "init-dotslash") else None, preexisting):
                         continue
